@@ -2,6 +2,10 @@
 """Generates MANIFEST.json. Edit BUILT / texts here, run, commit."""
 import json
 BUILT = {
+ "C10": dict(level="model_checking", engine="bfs", technique="deviation-bounded exhaustive exploration of map iteration orders (seam decided by the explorer) and of render histories on one engine, differential against the default-order fresh-engine run",
+   text="Every map iteration of the vuego module is routed through a seam; for each of 31 catalogue programs every execution with <=1 (thorough <=2) deviating iteration occurrences (all permutations for <=4 keys, reversal and rotations above) and two global orders must reproduce the bytes of the ascending-order run. Every ordered pair (thorough: triple) of programs on one engine: last render equals the fresh-engine render and carries no canary of an earlier one. Caller data deep-equal before/after through 4 entry points; frozen and backwards clocks.",
+   note="Trusts cmd/vinstr to find every range-over-map / MapKeys site by type (25 sites today) and the seam packages. Map iteration inside dependencies is not controlled. The reference is the implementation's own default-order, fresh-engine output: no hand-written expectation.",
+   ref="DESIGN.md §3 C10"),
  "C07": dict(level="exploration", technique="exhaustive enumeration of layout graphs over a bounded file set plus boundary-length chains and cycles, against a reference resolver",
    text="All layout graphs over page (root or pages/), layouts/a, layouts/b, optional layouts/base and an optional relative twin pages/a, every file's layout key over {none,a,b,base,self,missing}, page key from front-matter or Fill (9.5k graphs); straight chains of 1..150 (thorough ..300) links around the limit of 100; cycles of length 1,2,3,7; all 16 subsets of sources defining a colliding data key. Expected nesting order with each marker once, or an error with nothing written.",
    note="Trusts the reference resolver in checks/c07.go. A chain of exactly 100 links may succeed or fail.",
